@@ -55,6 +55,13 @@ fn max_body<const N: usize>(lo: i32, hi: i32) {
         i += 1;
     }
     assert!(cnt < fanout(rp));
+    // the result is in numeric order, pairwise distinct and still non-overlapping
+    let a: usize = kani::any();
+    kani::assume(a + 1 < out.len());
+    assert!(out[a] < out[a + 1]);
+    let b: usize = kani::any();
+    kani::assume(b < out.len() && b != a);
+    assert!(!spec_covers(out[a], out[b]));
     kani::cover!(out.len() < N);
     kani::cover!(cnt + 1 == fanout(rp));
     core::mem::forget(out);
@@ -73,6 +80,28 @@ macro_rules! c10_max {
     };
 }
 c10_max!(c10_max_4, 4, 0, 29);
+
+/// Same harness with `cell_to_parent` replaced by its contract model (`parent_model`, proved equal
+/// to the real function on every canonical cell by `oracle_parent_equiv`): compact's own logic is
+/// the real code, the decode/re-encode inside the callee — the memory hog — is not re-executed.
+macro_rules! c10_max_m {
+    ($name:ident, $n:expr, $lo:expr, $hi:expr) => {
+        #[kani::proof]
+        #[kani::unwind(14)]
+        #[kani::stub(alloc::fmt::format, fmt_stub)]
+        #[kani::stub(core::slice::sort::unstable::sort, sort_inner_small)]
+        #[kani::stub(a5::core::serialization::get_resolution, res_stub)]
+        #[kani::stub(a5::core::serialization::cell_to_parent, parent_model)]
+        pub fn $name() {
+            max_body::<$n>($lo, $hi);
+        }
+    };
+}
+c10_max_m!(c10_max_4m, 4, 0, 29);
+c10_max_m!(c10_max_5m, 5, 0, 29);
+c10_max_m!(c10_max_6m, 6, 0, 29);
+c10_max_m!(c10_max_7m, 7, 0, 29);
+
 c10_max!(c10_max_5, 5, 0, 29);
 c10_max!(c10_max_5_hi, 5, 2, 29);
 
@@ -213,6 +242,23 @@ macro_rules! c10_idem {
     };
 }
 c10_idem!(c10_idem_4, 4, 0, 29);
+
+macro_rules! c10_idem_m {
+    ($name:ident, $n:expr, $lo:expr, $hi:expr) => {
+        #[kani::proof]
+        #[kani::unwind(14)]
+        #[kani::stub(alloc::fmt::format, fmt_stub)]
+        #[kani::stub(core::slice::sort::unstable::sort, sort_inner_small)]
+        #[kani::stub(a5::core::serialization::get_resolution, res_stub)]
+        #[kani::stub(a5::core::serialization::cell_to_parent, parent_model)]
+        pub fn $name() {
+            idem_body::<$n>($lo, $hi);
+        }
+    };
+}
+c10_idem_m!(c10_idem_4m, 4, 0, 29);
+c10_idem_m!(c10_idem_5m, 5, 0, 29);
+c10_idem_m!(c10_idem_6m, 6, 0, 29);
 c10_idem!(c10_idem_4_hi, 4, 2, 29);
 
 /// Canonical form, inductive step: splitting one input cell (resolution ≥ 1) into its four
@@ -289,4 +335,24 @@ pub fn c10_split_1() {
 #[kani::stub(a5::core::serialization::get_resolution, res_stub)]
 pub fn c10_split_2() {
     split_body::<2, 5>();
+}
+
+#[kani::proof]
+#[kani::unwind(14)]
+#[kani::stub(alloc::fmt::format, fmt_stub)]
+#[kani::stub(core::slice::sort::unstable::sort, sort_inner_small)]
+#[kani::stub(a5::core::serialization::get_resolution, res_stub)]
+#[kani::stub(a5::core::serialization::cell_to_parent, parent_model)]
+pub fn c10_split_2m() {
+    split_body::<2, 5>();
+}
+
+#[kani::proof]
+#[kani::unwind(14)]
+#[kani::stub(alloc::fmt::format, fmt_stub)]
+#[kani::stub(core::slice::sort::unstable::sort, sort_inner_small)]
+#[kani::stub(a5::core::serialization::get_resolution, res_stub)]
+#[kani::stub(a5::core::serialization::cell_to_parent, parent_model)]
+pub fn c10_split_3m() {
+    split_body::<3, 6>();
 }
